@@ -87,7 +87,7 @@ kproof!(noerr, 6, fn c15_q_median2_min2_max2() {
 });
 
 // one number: every aggregate returns it, in both conventions
-kproof!(noerr, 5, fn c15_q_singleton() {
+kproof!(noerr, 8, fn c15_q_singleton() {
     let a: f64 = kani::any();
     kani::assume(!a.is_nan());
     let l = arena::list_cell(vec![n(a)]);
@@ -130,7 +130,7 @@ kproof!(noerr, 7, fn c15_q_percentile3() {
     kani::cover!(p == 50.0, "reach p = 50");
     std::mem::forget(heap);
 });
-kproof!(noerr, 7, fn c15_t_percentile4_is_element() {
+kproof!(noerr, 7, fn c15_q_percentile4_is_element() {
     let (a, b, c, d): (f64, f64, f64, f64) = (kani::any(), kani::any(), kani::any(), kani::any());
     kani::assume(no_nan(a, b, c) && !d.is_nan());
     let p: f64 = kani::any();
